@@ -2,6 +2,7 @@
 SPECIFICATION Spec
 CONSTANTS
   MaxMsgs = 5
+  MaxMsgsR = 5
   MaxDepth = 3
   MaxTasks = 2
   MaxResv = 1
